@@ -274,6 +274,7 @@ func checkC09(w *World, r *Report) {
 	checkTruthinessCoverage(w, r)
 	checkLookupCoherence(w, r)
 	checkIfBranchesKept(w, r)
+	checkExpressionTextIsSource(w, r, "R09.18")
 }
 
 func checkIfNode(w *World, r *Report) {
